@@ -52,8 +52,8 @@ type fragDef struct {
 
 type varDef struct {
 	name, typ, def string
-	val           any
-	provide       bool
+	val            any
+	provide        bool
 }
 
 // Generate returns one operation of the given kind (query|mutation).
